@@ -48,6 +48,32 @@ Section Analysis.
     | None => false
     end.
 
+  Definition fin_b (v : val) : bool :=
+    match v with VInt _ | VBool _ | VFloat (XFin _) => true | _ => false end.
+
+  Definition param_leaf_fin (e : expr) : bool :=
+    match path_of e with
+    | Some (r, ks) =>
+        match lookup r P with
+        | Some v => match path_get v ks with Ok w => fin_b w | Err _ => false end
+        | None => false
+        end
+    | None => false
+    end.
+
+  (* finite (any sign): arithmetic over variables known finite-non-negative and finite parameter leaves *)
+  Fixpoint fin_e (G : list string) (e : expr) : bool :=
+    match e with
+    | EInt _ | EFloat _ | EBool _ => true
+    | EVar x => smem x G
+    | EBin Add a b | EBin Sub a b | EBin Mul a b | EBin Div a b => fin_e G a && fin_e G b
+    | ENeg a => fin_e G a
+    | ECmp _ _ _ | ENot _ => true
+    | EIfE _ a b => fin_e G a && fin_e G b
+    | ESub _ _ => param_leaf_fin e
+    | _ => false
+    end.
+
   Definition two_args (es : exprs) : bool :=
     match es with ECons _ (ECons _ ENil) => true | _ => false end.
 
@@ -63,7 +89,8 @@ Section Analysis.
     | EAnd a b | EOr a b => nn_e G a && nn_e G b
     | EIfE _ a b => nn_e G a && nn_e G b
     | ESub _ _ => param_leaf_ok e
-    | EBuiltin BMax args | EBuiltin BMin args => two_args args && nn_es G args
+    | EBuiltin BMax (ECons a (ECons b ENil)) => (nn_e G a && (nn_e G b || fin_e G b)) || (fin_e G a && nn_e G b)
+    | EBuiltin BMin args => two_args args && nn_es G args
     | _ => false
     end
   with nn_es (G : list string) (es : exprs) : bool :=
@@ -179,6 +206,72 @@ Proof.
   cbn. destruct (better b a) as [c|]; cbn; [|discriminate]. destruct c; intro H; injection H as <-; auto.
 Qed.
 
+Definition finv (v : val) : Prop :=
+  match v with VInt _ | VBool _ | VFloat (XFin _) => True | _ => False end.
+
+Lemma fnn_finv v : fnn v -> finv v.
+Proof. destruct v as [z|[|q| |]|b| | | | |]; cbn; auto. Qed.
+
+Lemma fin_b_sound v : (match v with VInt _ | VBool _ | VFloat (XFin _) => true | _ => false end) = true -> finv v.
+Proof. destruct v as [z|[|q| |]|b| | | | |]; cbn; auto; discriminate. Qed.
+
+Lemma arith_fin op a b v :
+  (op = Add \/ op = Sub \/ op = Mul \/ op = Div) -> finv a -> finv b -> arith op a b = Ok v -> finv v.
+Proof.
+  intros Hop Ha Hb H.
+  destruct a as [x|[|p| |]|x| | | | |]; try contradiction; destruct b as [y|[|q| |]|y| | | | |]; try contradiction;
+    destruct Hop as [->|[->|[->| ->]]]; cbn in H;
+    repeat match type of H with context [if ?c then _ else _] => destruct c end;
+    try discriminate; injection H as <-; exact I.
+Qed.
+
+Lemma neg_fin a v : finv a -> neg a = Ok v -> finv v.
+Proof. destruct a as [x|[|p| |]|x| | | | |]; try contradiction; cbn; intros _ H; injection H as <-; exact I. Qed.
+
+(* comparison of finite numbers is comparison of their rational values *)
+Lemma fq_finv v : finv v -> exists q, fq v = Some q.
+Proof. destruct v as [z|[|q| |]|b| | | | |]; try contradiction; intros _; eexists; reflexivity. Qed.
+
+Lemma Zltb_qz p q : Z.ltb p q = Qcltb (qz p) (qz q).
+Proof.
+  destruct (Z.ltb_spec p q) as [H|H].
+  - symmetry. apply Qcltb_iff. apply (proj1 (qz_lt p q)). exact H.
+  - symmetry. apply Qcltb_false_iff. apply (proj1 (qz_le q p)). exact H.
+Qed.
+
+Lemma lt_val_fin x y qx qy : fq x = Some qx -> fq y = Some qy -> lt_val x y = Ok (Qcltb qx qy).
+Proof.
+  destruct x as [p|[|p| |]|p| | | | |]; try discriminate; destruct y as [q|[|q| |]|q| | | | |]; try discriminate;
+    cbn; intros Hx Hy; injection Hx as <-; injection Hy as <-; unfold lt_val; cbn; try reflexivity;
+    try (rewrite Zltb_qz; reflexivity).
+Qed.
+
+Lemma fq_fnn v q : fq v = Some q -> (0 <= q)%Qc -> fnn v.
+Proof.
+  destruct v as [z|[|p| |]|b| | | | |]; try discriminate; cbn; intro H; injection H as <-; intro Hq; auto.
+  apply (proj2 (qz_le 0 z)). replace (qz 0) with 0%Qc by (apply Qc_is_canon; reflexivity). exact Hq.
+Qed.
+
+(* max(x, y) with one operand finite-non-negative and the other finite is finite-non-negative *)
+Lemma max2_fnn x y r :
+  apply_builtin BMax [x; y] = Ok r -> (fnn x /\ finv y) \/ (finv x /\ fnn y) -> fnn r.
+Proof.
+  intros H Hc.
+  assert (Fx : finv x) by (destruct Hc as [[H1 _]|[H1 _]]; [apply fnn_finv|]; assumption).
+  assert (Fy : finv y) by (destruct Hc as [[_ H1]|[_ H1]]; [|apply fnn_finv]; assumption).
+  destruct (fq_finv x Fx) as [qx Ex]. destruct (fq_finv y Fy) as [qy Ey].
+  cbn [apply_builtin py_max fold_best] in H. rewrite (lt_val_fin x y qx qy Ex Ey) in H. cbn [bind] in H.
+  destruct (Qcltb qx qy) eqn:E; injection H as <-.
+  - (* result y, x < y *)
+    apply Qcltb_iff in E. destruct Hc as [[Hx _]|[_ Hy]]; [|exact Hy].
+    destruct (fnn_fq x Hx) as (q & Eq & Hq). rewrite Ex in Eq. injection Eq as <-.
+    apply (fq_fnn y qy Ey). qlra.
+  - (* result x, y <= x *)
+    apply Qcltb_false_iff in E. destruct Hc as [[Hx _]|[_ Hy]]; [exact Hx|].
+    destruct (fnn_fq y Hy) as (q & Eq & Hq). rewrite Ey in Eq. injection Eq as <-.
+    apply (fq_fnn x qx Ex). qlra.
+Qed.
+
 Section Sound.
   Variable call : string -> list val -> res val.
   Variable P : list (string * val).
@@ -195,12 +288,17 @@ Section Sound.
     injection Hev as <-. apply fnn_b_sound. exact H.
   Qed.
 
-  Definition sound_e (e : expr) : Prop := forall G rho v,
+  Lemma param_leaf_fin_sound rho e v :
     (forall r pv, lookup r P = Some pv -> lookup r rho = Some pv) ->
-    env_ok G rho -> nn_e P G e = true -> eval call rho e = Ok v -> fnn v.
-  Definition sound_es (es : exprs) : Prop := forall G rho vs,
-    (forall r pv, lookup r P = Some pv -> lookup r rho = Some pv) ->
-    env_ok G rho -> nn_es P G es = true -> evals call rho es = Ok vs -> Forall fnn vs.
+    param_leaf_fin P e = true -> eval call rho e = Ok v -> finv v.
+  Proof.
+    intros HP H Hev. unfold param_leaf_fin in H.
+    destruct (path_of e) as [[r ks]|] eqn:Ep; [|discriminate].
+    destruct (lookup r P) as [pv|] eqn:El; [|discriminate].
+    destruct (path_get pv ks) as [w|] eqn:Eg; [|discriminate].
+    rewrite (static_read_cannot_fail call rho e r ks pv w Ep (HP r pv El) Eg) in Hev.
+    injection Hev as <-. apply fin_b_sound. exact H.
+  Qed.
 
   Lemma eval_bin rho op a b : eval call rho (EBin op a b) = do x <- eval call rho a; do y <- eval call rho b; arith op x y.
   Proof. reflexivity. Qed.
@@ -209,9 +307,61 @@ Section Sound.
   Lemma evals_cons rho e r : evals call rho (ECons e r) = do v <- eval call rho e; do vs <- evals call rho r; Ok (v :: vs).
   Proof. reflexivity. Qed.
 
-  Theorem nn_sound : (forall e, sound_e e) /\ (forall es, sound_es es).
+  Theorem fin_e_sound : forall e G rho v,
+    (forall r pv, lookup r P = Some pv -> lookup r rho = Some pv) ->
+    env_ok G rho -> fin_e P G e = true -> eval call rho e = Ok v -> finv v.
   Proof.
-    apply expr_exprs_ind; unfold sound_e, sound_es;
+    induction e using expr_mut with (P0 := fun _ => True); try (intros; exact I); intros G rho v HP HG Hn Hev; cbn [fin_e] in Hn; try discriminate; auto.
+    - cbn in Hev. injection Hev as <-. exact I.
+    - cbn in Hev. injection Hev as <-. exact I.
+    - cbn in Hev. injection Hev as <-. exact I.
+    - cbn in Hev. destruct (HG x Hn) as (w & Hl & Hw). rewrite Hl in Hev. cbn in Hev. injection Hev as <-. apply fnn_finv. exact Hw.
+    - rewrite eval_bin in Hev.
+      destruct op; try discriminate; apply andb_true_iff in Hn; destruct Hn as [Ha Hb];
+        destruct (eval call rho e1) as [x|] eqn:E1; try discriminate; cbn [bind] in Hev;
+        destruct (eval call rho e2) as [y|] eqn:E2; try discriminate; cbn [bind] in Hev;
+        (eapply arith_fin; [| apply (IHe1 G rho x HP HG Ha E1) | apply (IHe2 G rho y HP HG Hb E2) | exact Hev]); auto.
+    - change (eval call rho (ENeg e)) with (do x <- eval call rho e; neg x) in Hev.
+      destruct (eval call rho e) as [x|] eqn:E1; [|discriminate]. cbn [bind] in Hev.
+      apply (neg_fin x v (IHe G rho x HP HG Hn E1) Hev).
+    - change (eval call rho (ENot e)) with (do x <- eval call rho e; Ok (VBool (negb (truthy x)))) in Hev.
+      destruct (eval call rho e); [|discriminate]. cbn in Hev. injection Hev as <-. exact I.
+    - change (eval call rho (ECmp op e1 e2)) with (do x <- eval call rho e1; do y <- eval call rho e2; compare op x y) in Hev.
+      destruct (eval call rho e1) as [x|]; [|discriminate]. cbn [bind] in Hev.
+      destruct (eval call rho e2) as [y|]; [|discriminate]. cbn [bind] in Hev.
+      unfold compare in Hev.
+      destruct (as_num x), (as_num y); try (injection Hev as <-; exact I);
+        destruct x, y; try discriminate; try (injection Hev as <-; exact I);
+        destruct op; try discriminate; try (injection Hev as <-; exact I).
+    - apply andb_true_iff in Hn. destruct Hn as [Ha Hb].
+      change (eval call rho (EIfE e1 e2 e3)) with (do x <- eval call rho e1; if truthy x then eval call rho e2 else eval call rho e3) in Hev.
+      destruct (eval call rho e1) as [c|]; [|discriminate]. cbn [bind] in Hev.
+      destruct (truthy c); [apply (IHe2 G rho v HP HG Ha Hev) | apply (IHe3 G rho v HP HG Hb Hev)].
+    - apply (param_leaf_fin_sound rho (ESub e1 e2) v HP Hn Hev).
+  Qed.
+
+  Definition sound_e (e : expr) : Prop := forall G rho v,
+    (forall r pv, lookup r P = Some pv -> lookup r rho = Some pv) ->
+    env_ok G rho -> nn_e P G e = true -> eval call rho e = Ok v -> fnn v.
+
+  Fixpoint all_sound (es : exprs) : Prop :=
+    match es with ENil => True | ECons e r => sound_e e /\ all_sound r end.
+
+  Lemma all_sound_es es : all_sound es -> forall G rho vs,
+    (forall r pv, lookup r P = Some pv -> lookup r rho = Some pv) ->
+    env_ok G rho -> nn_es P G es = true -> evals call rho es = Ok vs -> Forall fnn vs.
+  Proof.
+    induction es as [|e r IH]; intros Hs G rho vs HP HG Hn Hev.
+    - cbn in Hev. injection Hev as <-. constructor.
+    - destruct Hs as [He Hr]. cbn [nn_es] in Hn. apply andb_true_iff in Hn. destruct Hn as [H1 H2].
+      rewrite evals_cons in Hev. destruct (eval call rho e) as [x|] eqn:E1; [|discriminate]. cbn [bind] in Hev.
+      destruct (evals call rho r) as [xs|] eqn:E2; [|discriminate]. cbn in Hev. injection Hev as <-.
+      constructor; [apply (He G rho x HP HG H1 E1) | apply (IH Hr G rho xs HP HG H2 E2)].
+  Qed.
+
+  Theorem nn_sound : (forall e, sound_e e) /\ (forall es, all_sound es).
+  Proof.
+    apply expr_exprs_ind; unfold sound_e;
       try (intros; cbn [nn_e] in *; discriminate).
     - (* EInt *) intros z G rho v _ _ Hn Hev. cbn in Hev. injection Hev as <-. cbn. apply Z.leb_le. exact Hn.
     - (* EFloat *) intros q G rho v _ _ Hn Hev. cbn in Hev. injection Hev as <-. cbn. apply Qcleb_iff. exact Hn.
@@ -260,21 +410,31 @@ Section Sound.
     - (* EBuiltin *)
       intros b args IH G rho v HP HG Hn Hev. rewrite eval_builtin in Hev.
       destruct (evals call rho args) as [vs|] eqn:Ev; [|discriminate]. cbn [bind] in Hev.
-      destruct b; cbn [nn_e] in Hn; try discriminate; apply andb_true_iff in Hn; destruct Hn as [H2 Hn];
-        pose proof (IH G rho vs HP HG Hn Ev) as F;
-        destruct args as [|a1 [|a2 [|? ?]]]; try discriminate;
-        rewrite !evals_cons in Ev;
-        destruct (eval call rho a1) as [x|]; try discriminate; cbn [bind] in Ev;
-        destruct (eval call rho a2) as [y|]; try discriminate; cbn in Ev; injection Ev as <-;
-        inversion F as [|? ? Fx F']; subst; inversion F' as [|? ? Fy _]; subst;
-        cbn [apply_builtin py_min py_max] in Hev;
+      destruct b; cbn [nn_e] in Hn; try discriminate.
+      + (* BMin: both non-negative *)
+        apply andb_true_iff in Hn. destruct Hn as [H2 Hn].
+        pose proof (all_sound_es args IH G rho vs HP HG Hn Ev) as F.
+        destruct args as [|a1 [|a2 [|? ?]]]; try discriminate.
+        rewrite !evals_cons in Ev.
+        destruct (eval call rho a1) as [x|]; try discriminate; cbn [bind] in Ev.
+        destruct (eval call rho a2) as [y|]; try discriminate; cbn in Ev. injection Ev as <-.
+        inversion F as [|? ? Fx F']; subst. inversion F' as [|? ? Fy _]; subst.
+        cbn [apply_builtin py_min] in Hev.
         destruct (fold_best2 _ x y v Hev) as [->| ->]; assumption.
-    - (* ENil *) intros G rho vs _ _ _ Hev. cbn in Hev. injection Hev as <-. constructor.
-    - (* ECons *)
-      intros e IHe r IHr G rho vs HP HG Hn Hev. cbn [nn_es] in Hn. apply andb_true_iff in Hn. destruct Hn as [H1 H2].
-      rewrite evals_cons in Hev. destruct (eval call rho e) as [x|] eqn:E1; [|discriminate]. cbn [bind] in Hev.
-      destruct (evals call rho r) as [xs|] eqn:E2; [|discriminate]. cbn in Hev. injection Hev as <-.
-      constructor; [apply (IHe G rho x HP HG H1 E1) | apply (IHr G rho xs HP HG H2 E2)].
+      + (* BMax: one operand non-negative, the other finite *)
+        destruct args as [|a1 [|a2 [|? ?]]]; try discriminate.
+        destruct IH as [S1 [S2 _]].
+        rewrite !evals_cons in Ev.
+        destruct (eval call rho a1) as [x|] eqn:E1; try discriminate; cbn [bind] in Ev.
+        destruct (eval call rho a2) as [y|] eqn:E2; try discriminate; cbn in Ev. injection Ev as <-.
+        apply (max2_fnn x y v Hev).
+        apply orb_true_iff in Hn. destruct Hn as [Hn|Hn]; apply andb_true_iff in Hn; destruct Hn as [Ha Hb].
+        * left. split; [apply (S1 G rho x HP HG Ha E1)|].
+          apply orb_true_iff in Hb. destruct Hb as [Hb|Hb];
+            [apply fnn_finv; apply (S2 G rho y HP HG Hb E2) | apply (fin_e_sound a2 G rho y HP HG Hb E2)].
+        * right. split; [apply (fin_e_sound a1 G rho x HP HG Ha E1) | apply (S2 G rho y HP HG Hb E2)].
+    - (* ENil *) exact I.
+    - (* ECons *) intros e IHe r IHr. split; assumption.
   Qed.
 End Sound.
 
